@@ -194,9 +194,10 @@ def c02(run):
 
 def c04(run):
     return generic_check(run, [("MC_map_w2fault.cfg", "MC_map.tla", {"timeout": 400}), ("MC_map_w2inplaceq.cfg", "MC_map.tla", {"timeout": 600}),
-                               ("MC_table_w2fault.cfg", "MC_table.tla", {"timeout": 300, "workers": 6}),
+                               ("MC_table_w2fault.cfg", "MC_table.tla", {"timeout": 300, "workers": 6}), ("MC_table_w2inplace.cfg", "MC_table.tla", {"timeout": 400}),
                                ("MC_set_w2fault.cfg", "MC_set.tla", {"timeout": 400, "workers": 6})],
-                         [("MC_table_w2faultt.cfg", "MC_table.tla", {"timeout": 1500, "workers": 12}), ("MC_map_w2inplace.cfg", "MC_map.tla", {"timeout": 1500, "workers": 12})],
+                         [("MC_table_w2faultt.cfg", "MC_table.tla", {"timeout": 1500, "workers": 12}), ("MC_map_w2inplace.cfg", "MC_map.tla", {"timeout": 1500, "workers": 12}),
+                          ("MC_set_w2inplace.cfg", "MC_set.tla", {"timeout": 1500, "workers": 12})],
         [("fault", ["map:kv16:collide:20:1300:fault:fault=30,plan2=fewpos", "map:k4v4:zero:14:700:fault:fault=30,plan2=collide"]),
          ("fault2", ["set:k8t:collide:20:600:setalg:fault=25,plan2=mixed", "table:te24:zero:14:600:table:fault=25", "map:kv24:onegroup:12:500:fault:fault=30"]),
          ("faultbh", ["map:kv16:collide:20:800:two:fault=60,fclass=bh_clone,plan2=fewpos", "set:k8t:zero:14:500:setalg:fault=50,fclass=bh_clone,plan2=collide"])],
@@ -239,7 +240,8 @@ def c03(run):
 
 
 def c06(run):
-    return generic_check(run, [("MC_table_w2q.cfg", "MC_table.tla", {"timeout": 300})], [("MC_table_w2t.cfg", "MC_table.tla", {"timeout": 1500, "workers": 12})],
+    return generic_check(run, [("MC_table_w2q.cfg", "MC_table.tla", {"timeout": 300}), ("MC_table_w2inplace.cfg", "MC_table.tla", {"timeout": 400})],
+                         [("MC_table_w2t.cfg", "MC_table.tla", {"timeout": 1500, "workers": 12})],
         [("table", ["table:te24:collide:20:1200:table", "table:te24:zero:12:700:table:plan2=mixed", "table:t1:fewpos:16:500:table"]),
          ("table2", ["table:te32:onegroup:14:800:table", "table:te24:mixed:30:600:table:plan2=collide"]),
          ("tablewrap", ["table:te24:wrap:30:900:table", "table:te24:spread:26:600:table:plan2=wrap"]),
@@ -250,7 +252,8 @@ def c06(run):
 
 
 def c07(run):
-    return generic_check(run, [("MC_set_w2q.cfg", "MC_set.tla", {"timeout": 300})], [("MC_set_w2t.cfg", "MC_set.tla", {"timeout": 1500, "workers": 12})],
+    return generic_check(run, [("MC_set_w2q.cfg", "MC_set.tla", {"timeout": 300})],
+                         [("MC_set_w2t.cfg", "MC_set.tla", {"timeout": 1500, "workers": 12}), ("MC_set_w2inplace.cfg", "MC_set.tla", {"timeout": 1500, "workers": 12})],
         [("sets", ["set:k8t:collide:20:900:set", "set:k8t:fewpos:16:1200:setalg", "set:k4:zero:12:700:setalg:plan2=mixed"]),
          ("sets2", ["set:k8t:mixed:24:900:setalg:plan2=collide", "set:k1:onegroup:16:700:set"])],
         [("sets3", ["set:k8t:collide:20:4000:setalg:plan2=max", "set:k2:posfix:14:3000:setalg", "set:k8:tagfix:30:3000:set"]),
